@@ -29,9 +29,18 @@
 
 #include "snoopy.h"
 
+#include <errno.h>
 #include <stdio.h>
+#include <stdlib.h>
 #include <unistd.h>
 #include <limits.h>
+
+
+
+/*
+ * Upper bound for the path buffer (it starts at PATH_MAX+1 and is doubled while getcwd() reports ERANGE)
+ */
+#define SNOOPY_DATASOURCE_CWD_BUF_SIZE_MAX 4194304
 
 
 
@@ -50,10 +59,27 @@
  */
 int snoopy_datasource_cwd (char * const resultBuf, size_t resultBufSize, __attribute__((unused)) char const * const arg)
 {
-    char cwdBuf[PATH_MAX+1];
+    size_t  cwdBufSize = PATH_MAX+1;
+    char   *cwdBuf     = NULL;
+    int     retVal     = SNOOPY_DATASOURCE_FAILURE;
 
-    if (getcwd(cwdBuf, PATH_MAX+1)) {
-        return snprintf(resultBuf, resultBufSize, "%s", cwdBuf);
+    /* A working directory may be deeper than PATH_MAX (only a path handed to a system call may not): retry with a larger buffer on ERANGE */
+    while (cwdBufSize <= SNOOPY_DATASOURCE_CWD_BUF_SIZE_MAX) {
+        char *biggerBuf = realloc(cwdBuf, cwdBufSize);
+        if (NULL == biggerBuf) {
+            break;
+        }
+        cwdBuf = biggerBuf;
+        if (getcwd(cwdBuf, cwdBufSize)) {
+            retVal = snprintf(resultBuf, resultBufSize, "%s", cwdBuf);
+            break;
+        }
+        if (ERANGE != errno) {
+            break;
+        }
+        cwdBufSize *= 2;
     }
-    return SNOOPY_DATASOURCE_FAILURE;
+
+    free(cwdBuf);
+    return retVal;
 }
